@@ -474,4 +474,38 @@ def consistentB (w : Walk) : Bool :=
 
 end Wrapper
 
+/-! ### which scalar argument values are "no value": diff's non-expression leaves vs `Expr.__eq__` / `__hash__`
+
+  `_generate_edit_script` decides Keep vs Update from `dict(_get_non_expression_leaves(node))`; `Expr.__eq__` decides
+  equality from `__hash__`.  Both drop some values of a non-expression argument.  The two skip sets are re-extracted from
+  the source on every run as decision tables over nine value classes. -/
+
+inductive ValClass where
+  | absent | none | false_ | emptyList | zero | emptyStr | one | str | true_
+  deriving DecidableEq, Repr
+
+def ValClass.all : List ValClass :=
+  [.absent, .none, .false_, .emptyList, .zero, .emptyStr, .one, .str, .true_]
+
+structure LeafPolicy where
+  /-- `_get_non_expression_leaves` does not yield the argument -/
+  diffSkips : ValClass → Bool
+  /-- `__hash__` (classes without `_hash_raw_args`) does not feed the argument into the hash -/
+  eqIgnores : ValClass → Bool
+
+/-- Python `==` between two present values of the nine classes (`True == 1`, `False == 0`) -/
+def pyEq (a b : ValClass) : Bool :=
+  a == b || (a == .one && b == .true_) || (a == .true_ && b == .one) ||
+    (a == .zero && b == .false_) || (a == .false_ && b == .zero)
+
+/-- can a predicate with skip set `skip` tell the two values of one argument apart? -/
+def sameUnder (skip : ValClass → Bool) (a b : ValClass) : Bool :=
+  if skip a && skip b then true else if skip a || skip b then false else pyEq a b
+
+/-- the `not value` variant of the leaf predicate (drops 0 and "" as well) -/
+def notValuePolicy (eqIgnores : ValClass → Bool) : LeafPolicy :=
+  ⟨fun v => match v with
+     | .absent | .none | .false_ | .emptyList | .zero | .emptyStr => true
+     | _ => false, eqIgnores⟩
+
 end SqlglotModel.Diff
